@@ -108,6 +108,12 @@ def demandedThr (ts : List T) (c : Option Rat) : Option Bool :=
   | none => some false
   | some c => demanded ts c
 
+/-- … for a collection delivered with an error record among its items (a tree that could not be
+    read, `Trees.Err`): the call must be rejected whatever the rest — the consensus of the readable
+    part is not the consensus of the collection -/
+def demandedItems (ts : List T) (hasBad : Bool) (c : Rat) : Option Bool :=
+  if hasBad then some false else demanded ts c
+
 /-- the printing by which `canonSet` sorts distinguishes the sides that occur (hypothesis of
     the literal equality `splitsOK`; it can only fail for names that contain ", ") -/
 def keysOK (ts : List T) : Bool := decide (((allSides ts).map fun s => toString s).Nodup)
